@@ -74,12 +74,15 @@ def max_accepted(rel, k):
     return {"Lt": k - 1, "Le": k}.get(rel)
 
 
-def run(R):
-    op_rules(R)
-    crdt_rules(R)
+def register_rules(R, pfx="C06"):
+    """Everything about which operations a register replica accepts and how replicas merge, except the entry-count limit agreement
+    (shared with C07, C05 and C04, whose register clauses rest on SignedRegister::verify / merge)."""
+    op_rules(R, pfx)
+    crdt_rules(R, pfx)
+    set_semantics_rules(R, pfx)
     F = R.F
     # (1) who writes ops, and only through extend/insert
-    sites = R.who_may_write("C06.ops", SR, "ops", [SR + "::merge", SR + "::verified_merge", SR + "::add_op"], floor=3,
+    sites = R.who_may_write(pfx + ".ops", SR, "ops", [SR + "::merge", SR + "::verified_merge", SR + "::add_op"], floor=3,
                             descr="SignedRegister.ops is mutated only by merge, verified_merge and add_op")
     ok = True
     n = 0
@@ -87,7 +90,7 @@ def run(R):
         prep(b)
         if m["how"] == "assign":
             ok = False
-            R.viol("C06.ops.mutator", "assign:%s" % R.root_path(b), "SignedRegister.ops is overwritten in %s" % R.root_path(b), b, m["line"])
+            R.viol(pfx + ".ops.mutator", "assign:%s" % R.root_path(b), "SignedRegister.ops is overwritten in %s" % R.root_path(b), b, m["line"])
             continue
         # find the call receiving the &mut ops
         refs = set()
@@ -102,21 +105,21 @@ def run(R):
                 n += 1
                 if not callee_matches(t, EXT + INS):
                     ok = False
-                    R.viol("C06.ops.mutator", "mutator:%s->%s" % (R.root_path(b), t["ncallee"]),
+                    R.viol(pfx + ".ops.mutator", "mutator:%s->%s" % (R.root_path(b), t["ncallee"]),
                            "SignedRegister.ops is mutated through %s in %s (only BTreeSet::extend/insert keep merge a set union)" % (t["ncallee"], R.root_path(b)), b, t["l"])
-    R.inst("C06.ops.mutator", "K2 mutator whitelist", "ops is only ever extended/inserted into (grow-only set ⇒ merge is union)", n, ok and n >= 3)
+    R.inst(pfx + ".ops.mutator", "K2 mutator whitelist", "ops is only ever extended/inserted into (grow-only set ⇒ merge is union)", n, ok and n >= 3)
     if n < 3:
-        R.viol("C06.ops.mutator", "instance-floor", "only %d mutator calls on ops found (floor 3)" % n)
+        R.viol(pfx + ".ops.mutator", "instance-floor", "only %d mutator calls on ops found (floor 3)" % n)
 
     # (2) gates
     G_MERGEABLE = CallGuard([RG + "::verify_is_mergeable"], ("Ok",), "verify_is_mergeable is Ok")
-    R.gate("C06.merge", SR + "::merge", CallSink(*EXT), [[G_MERGEABLE]], descr="merge extends only a mergeable (same address+permissions) register")
-    R.gate("C06.verified_merge", SR + "::verified_merge", CallSink(*EXT),
+    R.gate(pfx + ".merge", SR + "::merge", CallSink(*EXT), [[G_MERGEABLE]], descr="merge extends only a mergeable (same address+permissions) register")
+    R.gate(pfx + ".verified_merge", SR + "::verified_merge", CallSink(*EXT),
            [[G_MERGEABLE], [CallGuard([SR + "::verify"], ("Ok",), "other.verify() is Ok")]],
            descr="verified_merge extends only after other.verify()")
-    add = R.body("C06.add_op", SR + "::add_op")
+    add = R.body(pfx + ".add_op", SR + "::add_op")
     if add is not None:
-        R.gate("C06.add_op", add, CallSink(*INS),
+        R.gate(pfx + ".add_op", add, CallSink(*INS),
                [[CallGuard([RG + "::check_register_op"], ("Ok",), "check_register_op is Ok")],
                 [CmpGuard(lambda b: ops_len(b), lambda b: set(), "Lt", "ops.len() below the entry limit", close=False)] if False else
                 [_LenLimitGuard(F, "count")],
@@ -124,7 +127,7 @@ def run(R):
                descr="add_op inserts only permitted, in-limit, in-size ops")
 
     # (3) permission gate
-    cro = R.body("C06.check_op", RG + "::check_register_op")
+    cro = R.body(pfx + ".check_op", RG + "::check_register_op")
     if cro is not None:
         prep(cro)
         VS = "ant_registers::register_op::RegisterOp::verify_signature"
@@ -139,14 +142,14 @@ def run(R):
         fwd_other = [x for x in cro.blocks if x["term"]["k"] == "call" and not x["cleanup"] and x["term"]["d"] == [0] and not callee_matches(x["term"], [VS])
                      and not (x["term"]["ngen"] or "").endswith("FromResidual::from_residual")]  # the `?` error edge is not an accepting return
         if fwd_other:
-            R.viol("C06.check_op", "foreign-verdict", "check_register_op returns the verdict of %s" % fwd_other[0]["term"]["ncallee"], cro, fwd_other[0]["term"]["l"])
+            R.viol(pfx + ".check_op", "foreign-verdict", "check_register_op returns the verdict of %s" % fwd_other[0]["term"]["ncallee"], cro, fwd_other[0]["term"]["l"])
         if ok_lits.blocks(cro):
-            R.gate("C06.check_op.ok", cro, ok_lits, [[g_any, g_perm], [g_any, g_sig]],
+            R.gate(pfx + ".check_op.ok", cro, ok_lits, [[g_any, g_perm], [g_any, g_sig]],
                    descr="Ok(()) only for an open register, or after permission and signature checks")
         if fwd_sig.blocks(cro):
-            R.gate("C06.check_op.sig", cro, fwd_sig, [[g_perm]], descr="the signature verdict is returned only for a permitted signer")
+            R.gate(pfx + ".check_op.sig", cro, fwd_sig, [[g_perm]], descr="the signature verdict is returned only for a permitted signer")
         if not ok_lits.blocks(cro) and not fwd_sig.blocks(cro):
-            R.viol("C06.check_op", "no-accepting-return", "check_register_op has no recognisable accepting return", cro, cro.lines[0])
+            R.viol(pfx + ".check_op", "no-accepting-return", "check_register_op has no recognisable accepting return", cro, cro.lines[0])
         # both checks are about op.source
         ok = True
         src = Taint(cro).closure({d for d, r, p in field_reads(cro, "source")})
@@ -155,28 +158,34 @@ def run(R):
             if not cs or not all(op_local(x["term"]["args"][1]) in src for x in cs):
                 ok = False
         if not ok:
-            R.viol("C06.check_op.result", "signer-identity", "permission and signature are not both checked for op.source", cro, cro.lines[0])
-        R.inst("C06.check_op.result", "K6 flows-to", "check_user_permissions(op.source) and op.verify_signature(&op.source) concern the same signer", 2, ok)
-    R.gate("C06.user_perm", RG + "::check_user_permissions", RetSink("Ok"), [[CallGuard(["ant_registers::permissions::Permissions::can_write"], ("true",), "permissions.can_write(requester)")]],
+            R.viol(pfx + ".check_op.result", "signer-identity", "permission and signature are not both checked for op.source", cro, cro.lines[0])
+        R.inst(pfx + ".check_op.result", "K6 flows-to", "check_user_permissions(op.source) and op.verify_signature(&op.source) concern the same signer", 2, ok)
+    R.gate(pfx + ".user_perm", RG + "::check_user_permissions", RetSink("Ok"), [[CallGuard(["ant_registers::permissions::Permissions::can_write"], ("true",), "permissions.can_write(requester)")]],
            descr="check_user_permissions is Ok only for a listed writer")
-    vim = R.body("C06.mergeable", RG + "::verify_is_mergeable")
+    vim = R.body(pfx + ".mergeable", RG + "::verify_is_mergeable")
     if vim is not None:
-        R.gate("C06.mergeable", vim, RetSink("Ok"),
+        R.gate(pfx + ".mergeable", vim, RetSink("Ok"),
                [[CmpGuard(call_results([RG + "::address"]), call_results([RG + "::address"]), "Eq", "same address")],
                 [CmpGuard(lambda b: {d for d, r, p in field_reads(b, "permissions")}, lambda b: {d for d, r, p in field_reads(b, "permissions")}, "Eq", "same permissions")]],
                descr="registers are mergeable only with equal address and permissions")
 
     # (4) verify
-    ver = R.body("C06.verify", SR + "::verify")
+    ver = R.body(pfx + ".verify", SR + "::verify")
     if ver is not None:
-        R.gate("C06.verify.owner", ver, RetSink("Ok"), [[CallGuard(["blsttc::PublicKey::verify"], ("true",), "owner().verify(signature, bytes)")]],
+        R.gate(pfx + ".verify.owner", ver, RetSink("Ok"), [[CallGuard(["blsttc::PublicKey::verify"], ("true",), "owner().verify(signature, bytes)")]],
                descr="verify() is Ok only with a valid owner signature over the base register")
-        R.gate_reject("C06.verify.ops", ver, RetSink("Ok"),
+        R.gate_reject(pfx + ".verify.ops", ver, RetSink("Ok"),
                       [CallGuard([RG + "::check_register_op"], ("Ok",), "check_register_op(op) is Ok"), OrWrapperGuard(F, _SizeGuard(F), RG + "::check_register_op")],
                       descr="verify() is Ok only if every op is permitted and within the size limit")
         from rules import ForallGuard
-        R.gate("C06.verify.ops.every", ver, RetSink("Ok"), [[ForallGuard("ops", [RG + "::check_register_op"], ("Ok",), "every op of the register passed check_register_op")]],
+        R.gate(pfx + ".verify.ops.every", ver, RetSink("Ok"), [[ForallGuard("ops", [RG + "::check_register_op"], ("Ok",), "every op of the register passed check_register_op")]],
                descr="verify() is Ok only after *every* op was checked (none is skipped)")
+    return locals().get("add"), locals().get("ver")
+
+
+def run(R):
+    F = R.F
+    add, ver = register_rules(R, "C06")
     # (5) limit agreement
     if add is not None and ver is not None:
         prep(add); prep(ver)
@@ -283,15 +292,15 @@ ROP = "ant_registers::register_op::RegisterOp"
 CRDT = "ant_registers::reg_crdt::RegisterCrdt"
 
 
-def op_rules(R):
+def op_rules(R, pfx="C06"):
     """RegisterOp: the signature covers address, crdt_op and source; verify_signature is the BLS verdict over the op's own
     fields; RegisterCrdt::apply_op applies only an op addressed to this register."""
     from flow import backward
     from rules import PL, AggSink
     F = R.F
-    vs = R.body("C06.op.sig", ROP + "::verify_signature")
+    vs = R.body(pfx + ".op.sig", ROP + "::verify_signature")
     if vs is not None:
-        R.gate("C06.op.sig", vs, RetSink("Ok"), [[CallGuard(["blsttc::PublicKey::verify"], ("true",), "pk.verify(signature, bytes)")]],
+        R.gate(pfx + ".op.sig", vs, RetSink("Ok"), [[CallGuard(["blsttc::PublicKey::verify"], ("true",), "pk.verify(signature, bytes)")]],
                descr="verify_signature is Ok only if the BLS verification holds")
         prep(vs)
         ta = Taint(vs, through="all")
@@ -301,8 +310,8 @@ def op_rules(R):
         pk = Taint(vs).closure(PL(vs, 1))
         ok = bool(ver) and all(op_local(b["term"]["args"][0]) in pk and op_local(b["term"]["args"][1]) in sig and op_local(b["term"]["args"][2]) in msg for b in ver)
         if not ok:
-            R.viol("C06.op.sig.args", "op-verify-args", "verify_signature is not pk.verify(&self.signature, bytes_for_signing(..))", vs, vs.lines[0])
-        R.inst("C06.op.sig.args", "K6 flows-to", "verify_signature = pk.verify(self.signature, bytes_for_signing(self.address, self.crdt_op, self.source))", len(ver), ok)
+            R.viol(pfx + ".op.sig.args", "op-verify-args", "verify_signature is not pk.verify(&self.signature, bytes_for_signing(..))", vs, vs.lines[0])
+        R.inst(pfx + ".op.sig.args", "K6 flows-to", "verify_signature = pk.verify(self.signature, bytes_for_signing(self.address, self.crdt_op, self.source))", len(ver), ok)
         # the op's own fields are what is hashed
         cs = [b for b in vs.blocks if b["term"]["k"] == "call" and callee_matches(b["term"], [ROP + "::bytes_for_signing"])]
         order = ["address", "crdt_op", "source"]
@@ -316,14 +325,14 @@ def op_rules(R):
                     covered.append(f)
                 else:
                     okf = False
-                    R.viol("C06.op.signed", "unsigned-arg:%s" % f, "verify_signature does not pass self.%s as argument %d of bytes_for_signing" % (f, i), vs, vs.lines[0])
+                    R.viol(pfx + ".op.signed", "unsigned-arg:%s" % f, "verify_signature does not pass self.%s as argument %d of bytes_for_signing" % (f, i), vs, vs.lines[0])
         adt = F.adts.get(ROP)
         fields = [f["name"] for f in adt["variants"][0]["fields"]] if adt else []
         unsigned = sorted(set(fields) - set(covered))
         if unsigned != ["signature"]:
             okf = False
-            R.viol("C06.op.signed", "unsigned-fields:%s" % ",".join(unsigned), "RegisterOp fields not covered by the op signature: %s (expected only `signature`)" % unsigned, vs, vs.lines[0])
-        bs = R.body("C06.op.signed", ROP + "::bytes_for_signing")
+            R.viol(pfx + ".op.signed", "unsigned-fields:%s" % ",".join(unsigned), "RegisterOp fields not covered by the op signature: %s (expected only `signature`)" % unsigned, vs, vs.lines[0])
+        bs = R.body(pfx + ".op.signed", ROP + "::bytes_for_signing")
         if bs is not None:
             prep(bs)
             tb = Taint(bs, through="all")
@@ -331,14 +340,14 @@ def op_rules(R):
             for i, f in enumerate(order):
                 if 0 not in tb.closure(PL(bs, i)):
                     okf = False
-                    R.viol("C06.op.signed", "param-dropped:%s" % f, "bytes_for_signing drops its `%s` parameter" % f, bs, bs.lines[0])
+                    R.viol(pfx + ".op.signed", "param-dropped:%s" % f, "bytes_for_signing drops its `%s` parameter" % f, bs, bs.lines[0])
                 else:
                     whole, part = whole_value_reaches(bs, PL(bs, i))
                     if not whole:
                         okf = False
-                        R.viol("C06.op.signed", "param-partial:%s" % f, "bytes_for_signing hashes only part of `%s` (%s), not the whole value" % (f, ", ".join("." + x for x in sorted(part)) or "a projection"), bs, bs.lines[0])
-        R.inst("C06.op.signed", "K6 field coverage", "every RegisterOp field except `signature` is covered by the op signature", len(fields), okf, {"fields": fields, "signed": covered})
-    nw = R.body("C06.op.new", ROP + "::new")
+                        R.viol(pfx + ".op.signed", "param-partial:%s" % f, "bytes_for_signing hashes only part of `%s` (%s), not the whole value" % (f, ", ".join("." + x for x in sorted(part)) or "a projection"), bs, bs.lines[0])
+        R.inst(pfx + ".op.signed", "K6 field coverage", "every RegisterOp field except `signature` is covered by the op signature", len(fields), okf, {"fields": fields, "signed": covered})
+    nw = R.body(pfx + ".op.new", ROP + "::new")
     if nw is not None:
         prep(nw)
         ta = Taint(nw, through="all")
@@ -355,37 +364,37 @@ def op_rules(R):
                 roots_g = backward(nw, signed) if signed is not None else set()
                 if not (roots_s & roots_g):
                     ok = False
-                    R.viol("C06.op.new", "signed-differs:%s" % f, "RegisterOp::new signs a different `%s` than the one it stores" % f, nw, nw.lines[0])
+                    R.viol(pfx + ".op.new", "signed-differs:%s" % f, "RegisterOp::new signs a different `%s` than the one it stores" % f, nw, nw.lines[0])
             sg = op_local(rv["ops"][rv["fields"].index("signature")])
             signs = ta.closure(call_results(["blsttc::SecretKey::sign"])(nw))
             if sg not in signs:
                 ok = False
-                R.viol("C06.op.new", "signature-source", "RegisterOp::new does not store signer.sign(bytes_for_signing(..))", nw, nw.lines[0])
+                R.viol(pfx + ".op.new", "signature-source", "RegisterOp::new does not store signer.sign(bytes_for_signing(..))", nw, nw.lines[0])
         else:
-            R.viol("C06.op.new", "shape", "RegisterOp::new: expected one bytes_for_signing call and one RegisterOp literal", nw, nw.lines[0])
-        R.inst("C06.op.new", "K6 flows-to", "new() signs exactly the (address, crdt_op, source) it stores", 4, ok)
-    ap = R.body("C06.apply.addr", CRDT + "::apply_op")
+            R.viol(pfx + ".op.new", "shape", "RegisterOp::new: expected one bytes_for_signing call and one RegisterOp literal", nw, nw.lines[0])
+        R.inst(pfx + ".op.new", "K6 flows-to", "new() signs exactly the (address, crdt_op, source) it stores", 4, ok)
+    ap = R.body(pfx + ".apply.addr", CRDT + "::apply_op")
     if ap is not None:
         def fld(name, root_idx):
             def f(body):
                 roots = Taint(body).closure(PL(body, root_idx))
                 return {d for d, r, p in field_reads(body, name) if r in roots or True and p and p[0] in roots}
             return f
-        R.gate("C06.apply.addr", ap, CallSink("*crdts::traits::CmRDT>::apply", "*CmRDT::apply"),
+        R.gate(pfx + ".apply.addr", ap, CallSink("*crdts::traits::CmRDT>::apply", "*CmRDT::apply"),
                [[CmpGuard(fld("address", 0), fld("address", 1), "Eq", "self.address == op.address", through="all")]],
                descr="apply_op applies an operation only if it is addressed to this register")
 
 
-def crdt_rules(R):
+def crdt_rules(R, pfx="C06"):
     """RegisterCrdt is a thin wrapper: convergence of the *presented values* is the crdts crate's MerkleReg, provided the wrapper
     hands it everything.  merge(other) = MerkleReg::merge(other.data) whole (orphans included), apply_op = MerkleReg::apply of the
     op's node, and nothing else mutates the data."""
     from rules import PL, _chain_calls, DROPPING_ADAPTORS
     from flow import whole_uses
     F = R.F
-    R.who_may_write("C06.crdt.own", CRDT, "data", [CRDT + "::merge", CRDT + "::apply_op", CRDT + "::write"], floor=3,
+    R.who_may_write(pfx + ".crdt.own", CRDT, "data", [CRDT + "::merge", CRDT + "::apply_op", CRDT + "::write"], floor=3,
                     descr="RegisterCrdt.data is mutated only by merge, apply_op and write")
-    mg = R.body("C06.crdt.merge", CRDT + "::merge")
+    mg = R.body(pfx + ".crdt.merge", CRDT + "::merge")
     if mg is not None:
         prep(mg)
         MERGE = "<crdts::merkle_reg::MerkleReg<T> as crdts::traits::CvRDT>::merge"
@@ -403,10 +412,10 @@ def crdt_rules(R):
                                     and st["rv"]["a"][1][-1] == ".data" for b in mg.blocks for st in b["stmts"]) or (t["args"][1][0] in ("cp", "mv") and t["args"][1][1][0] in src_other and t["args"][1][1][-1] == ".data")
             ok = arg_is_other_data
         if not ok:
-            R.viol("C06.crdt.merge", "merge-delegation", "RegisterCrdt::merge is not exactly `self.data.merge(other.data)` (MerkleReg::merge also carries the other replica's orphans; "
+            R.viol(pfx + ".crdt.merge", "merge-delegation", "RegisterCrdt::merge is not exactly `self.data.merge(other.data)` (MerkleReg::merge also carries the other replica's orphans; "
                    "re-applying a selection of its nodes does not): %s" % (others[:3] or "argument is not other.data"), mg, mg.lines[0])
-        R.inst("C06.crdt.merge", "K1 must-call", "RegisterCrdt::merge = MerkleReg::merge(self.data, other.data), nothing else", len(merges), ok)
-    ap = R.body("C06.crdt.apply", CRDT + "::apply_op")
+        R.inst(pfx + ".crdt.merge", "K1 must-call", "RegisterCrdt::merge = MerkleReg::merge(self.data, other.data), nothing else", len(merges), ok)
+    ap = R.body(pfx + ".crdt.apply", CRDT + "::apply_op")
     if ap is not None:
         prep(ap)
         aps = [b for b in ap.blocks if b["term"]["k"] == "call" and not b["cleanup"] and callee_matches(b["term"], ["*crdts::traits::CmRDT>::apply"])]
@@ -415,14 +424,54 @@ def crdt_rules(R):
             (len(aps) == 1 and any(st["d"] == [op_local(aps[0]["term"]["args"][1])] and st["rv"]["k"] == "use" and st["rv"]["a"][0] in ("cp", "mv") and st["rv"]["a"][1][0] in src_op
                                    and st["rv"]["a"][1][-1] == ".crdt_op" for b in ap.blocks for st in b["stmts"]))
         if not ok:
-            R.viol("C06.crdt.apply", "apply-delegation", "RegisterCrdt::apply_op does not apply exactly the op's own CRDT node", ap, ap.lines[0])
-        R.inst("C06.crdt.apply", "K6 flows-to", "apply_op applies op.crdt_op whole to the MerkleReg", len(aps), ok)
-    rd = R.body("C06.crdt.read", CRDT + "::read")
+            R.viol(pfx + ".crdt.apply", "apply-delegation", "RegisterCrdt::apply_op does not apply exactly the op's own CRDT node", ap, ap.lines[0])
+        R.inst(pfx + ".crdt.apply", "K6 flows-to", "apply_op applies op.crdt_op whole to the MerkleReg", len(aps), ok)
+    rd = R.body(pfx + ".crdt.read", CRDT + "::read")
     if rd is not None:
         prep(rd)
         names, _f = _chain_calls(F, rd, 0)
         dropped = [n for n in names if any(n.endswith(x) or (x + "<") in n for x in DROPPING_ADAPTORS)]
         ok = "crdts::merkle_reg::MerkleReg::read" in names and not dropped
         if not ok:
-            R.viol("C06.crdt.read", "read-delegation", "RegisterCrdt::read does not present every current value of MerkleReg::read (%s)" % (dropped[:1] or "read() not on the chain"), rd, rd.lines[0])
-        R.inst("C06.crdt.read", "K6 flows-to", "read() = all of MerkleReg::read(), unfiltered", len(names), ok)
+            R.viol(pfx + ".crdt.read", "read-delegation", "RegisterCrdt::read does not present every current value of MerkleReg::read (%s)" % (dropped[:1] or "read() not on the chain"), rd, rd.lines[0])
+        R.inst(pfx + ".crdt.read", "K6 flows-to", "read() = all of MerkleReg::read(), unfiltered", len(names), ok)
+
+
+def set_semantics_rules(R, pfx="C06"):
+    """`ops` is a BTreeSet<RegisterOp>: "the same set of operations" means what RegisterOp's Eq/Ord say.  They must be the derived
+    ones (all fields, mutually consistent) — a hand-written Ord that ignores a field makes the set keep whichever of two
+    different ops arrived first, so replicas no longer converge.  And a merge that reports Ok has extended the set."""
+    F = R.F
+    want = {"core::cmp::PartialEq": "eq", "core::cmp::PartialOrd": "partial_cmp", "core::cmp::Ord": "cmp"}
+    ok = True
+    n = 0
+    for tr, m in want.items():
+        b = F.body("<%s as %s>::%s" % (ROP, tr, m))
+        if b is None:
+            ok = False
+            R.viol(pfx + ".op.ord", "impl-missing:%s" % tr.split("::")[-1], "RegisterOp has no %s impl in the analysed build" % tr)
+            continue
+        n += 1
+        if b.mac != tr.split("::")[-1]:
+            ok = False
+            R.viol(pfx + ".op.ord", "hand-written:%s" % tr.split("::")[-1], "RegisterOp's %s is hand-written: the ops set (BTreeSet) no longer identifies an op by all of its fields consistently with Eq" % tr.split("::")[-1], b, b.lines[0])
+    adt = F.adts.get(SR)
+    ops_ty = next((f["ty"] for f in adt["variants"][0]["fields"] if f["name"] == "ops"), "") if adt else ""
+    if "BTreeSet<ant_registers::register_op::RegisterOp>" not in ops_ty.replace(" ", ""):
+        ok = False
+        R.viol(pfx + ".op.ord", "ops-not-a-set", "SignedRegister.ops is not a BTreeSet<RegisterOp> (%s)" % ops_ty)
+    R.inst(pfx + ".op.ord", "K7 table agreement", "RegisterOp's PartialEq / PartialOrd / Ord are the derived ones; ops is a BTreeSet<RegisterOp>", n, ok)
+    for fn in ("merge", "verified_merge"):
+        mb = R.body(pfx + ".merge.always", SR + "::" + fn)
+        if mb is None:
+            continue
+        prep(mb)
+        oks = set(RetSink("Ok").blocks(mb))
+        ext = set(CallSink(*EXT).blocks(mb))
+        g = cfg_of(mb)
+        # every Ok return is behind the extend (an accepting path that skips it leaves the union incomplete)
+        bad = oks & g.reach((0,), avoid=ext)
+        okm = bool(oks) and bool(ext) and not bad
+        if not okm:
+            R.viol(pfx + ".merge.always", "ok-without-union:%s" % fn, "SignedRegister::%s can return Ok without extending ops with the other replica's ops" % fn, mb, mb.lines[0])
+        R.inst(pfx + ".merge.always", "K5 must-follow", "%s: Ok only after ops.extend(other.ops)" % fn, len(oks), okm)
